@@ -84,6 +84,7 @@ def main():
     _tu.HANG["seconds"] = int(os.environ.get("VERIF_CALL_TIMEOUT", "300"))
     try:
         lean = common.LeanSide(mod.LEAN_PROPS, mod.LEAN_HELPERS, getattr(mod, "LEAN_TRANSLATED", None))
+        lean.recheck = (args.tier == "thorough")      # thorough tier: the compiled modules are re-checked by leanchecker
         ctx.lean = lean.run()
         if not ctx.driver.available():
             print("model driver could not be built:", ctx.lean.get("failures"), file=sys.stderr)
